@@ -3,7 +3,6 @@
 open Model
 open Conv
 
-let init = emon_init
 
 let fault_of = function "x" -> FDrop | "2" -> FDup | _ -> FDeliver
 
@@ -25,9 +24,27 @@ let out_of (t : int) (text : string) : sys_out list =
   | ["GWEND"] -> [SoGwEnd nt]
   | _ -> []
 
-let step (cfg : e2e_cfg) (y : sys) (y' : sys) (ev : sys_event) (iouts : (int * string) list) (m : emon)
-  : (string * string) list * emon =
+(* the class of the recorded C26 / C16 finding, visible on the wire: the gateway has sent REGISTERs with
+   different topic IDs for one topic name (a burst of broker messages on a not-yet-registered topic) *)
+type hstate = { em : emon; regs : (string * int) list; two_regs : bool }
+let hinit = { em = emon_init; regs = []; two_regs = false }
+
+let step (cfg : e2e_cfg) (y : sys) (y' : sys) (ev : sys_event) (iouts : (int * string) list) (h : hstate)
+  : (string * string) list * hstate =
   let os = List.concat_map (fun (t, x) -> out_of t x) iouts in
-  let (m', f) = emon_step cfg y y' ev os m in
+  let regs = ref h.regs and two = ref h.two_regs in
+  List.iter (fun o -> match o with
+      | SoG2C (_, _, dg) ->
+        (match read_dgram dg with
+         | Ok (Register (tid, _, name)) ->
+           let nm = hex_of_bytes name and tid = int_of_n tid in
+           if List.exists (fun (n, t) -> n = nm && t <> tid) !regs then two := true;
+           if not (List.mem (nm, tid) !regs) then regs := (nm, tid) :: !regs
+         | _ -> ())
+      | _ -> ()) os;
+  let (m', f) = emon_step cfg y y' ev os h.em in
   let st = (match y.y_cl.cl_st with Disconnected -> "disconnected" | Active -> "active" | Asleep -> "asleep" | Awake -> "awake") in
-  (List.map (fun (p, c) -> (Printf.sprintf "C%02d" (int_of_n p), Printf.sprintf "clause%d client=%s" (int_of_n c) st)) f, m')
+  (List.map (fun (p, c) -> (Printf.sprintf "C%02d" (int_of_n p),
+                            Printf.sprintf "clause%d client=%s%s" (int_of_n c) st
+                              (if !two then " class=two-registers-for-one-name" else ""))) f,
+   { em = m'; regs = !regs; two_regs = !two })
